@@ -12,6 +12,7 @@ theorem PInv.frame_same {s s' : St} {i : Nat} (h : PInv s i) (hp : s'.prods i = 
   · intro c _; rw [hch]
   · intro c _ q hq he heq; rw [hqs] at he heq; exact ⟨by omega, he, heq⟩
   · intro q _; rw [hqs]
+  · intro q _ hr; rw [hqs]; exact hr
 
 /-- a producer step that only moves the producer's program counter -/
 theorem inv_setPc_plain {s : St} (h : Inv s) (p : Nat) (hp : p < s.np) (pc' : PPC)
@@ -21,6 +22,7 @@ theorem inv_setPc_plain {s : St} (h : Inv s) (p : Nat) (hp : p < s.np) (pc' : PP
     (hnew_enq : ∀ q, pc' ≠ .enq q)
     (hnew_add : ∀ q, pc' ≠ .addRef q)
     (hnew_cas : ∀ q r, (pc' = .fastCas q r ∨ pc' = .slowCas q r) → 0 ≤ r)
+    (hnew_del : ∀ q, pc' = .slowDel q → (s.qs q).refs < 0)
     (henq : Enqueued (s.prods p).pc → Enqueued pc') :
     Inv (setPc s p pc') := by
   have hold : ∀ q, holders (setPc s p pc') q = holders s q := by
@@ -40,6 +42,7 @@ theorem inv_setPc_plain {s : St} (h : Inv s) (p : Nat) (hp : p < s.np) (pc' : PP
       · intro c hc; simp at hc ⊢; exact hP.pc_c c (hnew_c c hc)
       · intro q hq; simp at hq; exact absurd hq (hnew_add q)
       · intro q r hc; simp at hc; exact hnew_cas q r hc
+      · intro q hq; simp at hq; exact hnew_del q hq
     · exact (h.p i hi).frame_same (by simp [hip]) rfl rfl rfl rfl rfl
   · have g := h.g
     constructor
@@ -213,6 +216,7 @@ theorem inv_cas {s : St} (h : Inv s) (p : Nat) (hp : p < s.np) (q : Nat) (r : In
       · intro c hc; simp [PcC] at hc
       · intro q' hq'; simp at hq'
       · intro q' r' hc; simp at hc
+      · intro q' hq'; simp at hq'
     · apply PInv.frame (h.p i hi)
       · simp [hip, setRefs]
       · exact Nat.le_refl _
@@ -230,6 +234,9 @@ theorem inv_cas {s : St} (h : Inv s) (p : Nat) (hp : p < s.np) (q : Nat) (r : In
       · intro q' _; simp only [setPc_qs, setRefs, setQ_qs]; by_cases hqq : q' = q
         · subst hqq; simp
         · simp [hqq]
+      · intro q' _ hlt; simp only [setPc_qs, setRefs, setQ_qs]; by_cases hqq : q' = q
+        · subst hqq; omega
+        · simpa [hqq] using hlt
   · have g := h.g
     have hkey : ∀ q', ((setPc (setRefs s q (r + 1)) p (.enq q)).qs q').key = (s.qs q').key := by
       intro q'; simp only [setPc_qs, setRefs, setQ_qs]; by_cases hqq : q' = q
@@ -316,6 +323,7 @@ theorem inv_newChan {s : St} (h : Inv s) (p : Nat) (hp : p < s.np) (hpc : (s.pro
           simp at heq; omega
       · intro q hq; simp at hq
       · intro q r hc; simp at hc
+      · intro q hq; simp at hq
     · apply PInv.frame (h.p i hi')
       · simp [hip]
       · exact Nat.le_refl _
@@ -328,15 +336,19 @@ theorem inv_newChan {s : St} (h : Inv s) (p : Nat) (hp : p < s.np) (hpc : (s.pro
         simp [this]
       · intro c _ q hq he heq; exact ⟨hq, he, heq⟩
       · intro q _; rfl
+      · intro q _ hr; exact hr
   · apply g.frame
     · rfl
     · intro k q hm; exact hm
     · intro q; rfl
     · intro q; rfl
     · intro q he; exact he
-    · exact pool_lt_of g (by show s.nch ≤ s.nch + 1; omega) (fun _ x => x)
+    · refine pool_lt_of g ?_ ?_
+      · show s.nch ≤ s.nch + 1; omega
+      · exact fun _ x => x
     · exact g.pool_nodup
-    · apply pool_empty_of g (fun _ x => x)
+    · refine pool_empty_of g ?_ ?_
+      · exact fun _ x => x
       intro c hc
       have : c ≠ s.nch := Nat.ne_of_lt (g.pool_lt c hc)
       simp [this]
